@@ -213,6 +213,8 @@ class Interp:
         return ("O", self.oid, tag)
 
     def fresh_int(self, st, w, sg, origin="", defn=None, lo=None, hi=None):
+        if defn is not None and defn[0] in ("shl_trunc", "wrap", "trunc") and self.stack:
+            self.observe({"kind": "lossy", "fn": self.stack[-1], "what": defn[0], "detail": repr(defn[1:])})
         l, h = ty_range(w, sg)
         if lo is not None:
             l = max(l, lo)
